@@ -60,7 +60,11 @@ impl Rewrite<MetaVariable> {
     let edits = find_and_make_edits(nodes, &rules, ctx);
     let rewritten = if let Some(joiner) = &self.join_by {
       let mut ret = vec![];
-      let mut edits = edits.into_iter();
+      // an expanded fix can leave the captured text: such an edit cannot be applied to it
+      let end = start + bytes.len();
+      let mut edits = edits
+        .into_iter()
+        .filter(|e| e.position >= start && e.position + e.deleted_length <= end);
       if let Some(first) = edits.next() {
         let mut pos = first.position - start + first.deleted_length;
         ret.extend(first.inserted_text);
@@ -132,7 +136,13 @@ fn make_edit<D: Doc>(
   let mut new_content = vec![];
   let mut start = 0;
   for edit in edits {
-    let pos = edit.position - offset;
+    // an expanded fix can leave the captured text: such an edit cannot be applied to it
+    let Some(pos) = edit.position.checked_sub(offset) else {
+      continue;
+    };
+    if pos + edit.deleted_length > old_content.len() {
+      continue;
+    }
     // skip overlapping edits
     if start > pos {
       continue;
